@@ -62,6 +62,8 @@ def validate_stream(res, module, outdir, stream, pid, also=()):
     n, rejects = vlib.validate(module, vlib.shard_files(outdir, stream))
     mine = []
     for r in rejects:
+        if any(f["p"] == "HARNESS" for f in r["fails"]):
+            raise Infra("the driver and the trace specification disagree about what is enabled (%s): %s" % (module, json.dumps(r)[:1500]))
         fails = [f for f in r["fails"] if f["p"] == pid or f["p"] in also]
         if fails:
             devs = set(f.get("dev", "") for f in fails)
@@ -224,6 +226,74 @@ def C10(tier, seed):
     res.assumptions = ALG_ASSUME + ["spec/UriRelativize.tla: the property is a relation; any reference inside it is accepted"]
     return res
 
+# ------------------------------------------------------------------ the session machine: C07, C12
+SESSION_ASSUME = ["TLC/SANY, CommunityModules", "spec/UriSession.tla (object-level machine: slots, buffers, what each URI's ranges point into) on top of the value algebra",
+                  "harness projection; caller buffers are separate read-only mappings ending at a PROT_NONE page, released buffers become inaccessible (a bad access is an event the specification has no action for)"]
+def _session(res, pid, tier, seed, out, also=()):
+    exe = vlib.build("asan")
+    depth = {"quick": 6, "thorough": 7}[tier]
+    scripts = os.path.join(out, "scripts.ndjson")
+    if os.path.exists(scripts): os.remove(scripts)
+    import concurrent.futures
+    def one(ts):
+        cfg = os.path.join(out, "MC_Session_%s.cfg" % ts)
+        open(cfg, "w").write(open(os.path.join(SPEC, "MC_Session_%s.cfg" % ts)).read().replace("MaxDepth = 6", "MaxDepth = %d" % depth))
+        # one worker per model: the emitted lines must not interleave; the three models run side by side, each writing its own file
+        return ts, vlib.model_check("MC_Session", cfg=cfg, env={"EMIT": scripts + "." + ts}, timeout=3000, workers=1)
+    with concurrent.futures.ThreadPoolExecutor(3) as ex:
+        for ts, m in ex.map(one, ("paths", "auth", "rel")):
+            res.add_model(m, "MC_Session/%s (all histories of the session machine to depth %d over 3 slots, 2 buffers, 4 texts, masks {0, PATH, ALL}: OwnerIndependent, DepsAlive, AllStable, ScribbleLocal, OwnKeepsValue)" % (ts, depth))
+    with open(scripts, "w") as f:
+        for ts in ("paths", "auth", "rel"):
+            if os.path.exists(scripts + "." + ts): f.write(open(scripts + "." + ts).read())
+    nscripts = sum(1 for _ in open(scripts)) if os.path.exists(scripts) else 0
+    if nscripts == 0: raise Infra("MC_Session emitted no behaviours")
+    # spec -> code: every behaviour TLC found is replayed through the real library, the final state compared natively, the events validated again
+    h = vlib.run_harness(exe, ["session", "--mode", "script", "--script", scripts, "--seed", str(seed), "--tier", tier], out, "sscript", timeout=3000)
+    res.violations += harness_crash_violations(h, pid)
+    res.violations += [dict(v, prop=pid) for v in h["violations"]]
+    res.add_stats(vlib.merge_stats(h["stats"]))
+    res.violations += validate_stream(res, "Trace_Session", out, "sscript", pid, also=also)
+    res.coverage["behaviours_replayed"] = nscripts
+    # code -> spec: long random sessions
+    h = vlib.run_harness(exe, ["session", "--mode", "random", "--n", "12000" if tier == "thorough" else "700", "--seed", str(seed), "--tier", tier], out, "srandom", timeout=3000)
+    res.violations += harness_crash_violations(h, pid)
+    res.add_stats(vlib.merge_stats(h["stats"]))
+    res.violations += validate_stream(res, "Trace_Session", out, "srandom", pid, also=also)
+    res.violations += [dict(prop=pid, why="harness/driver disagreement with the session machine: " + v["why"], **{k: v[k] for k in v if k not in ("prop", "why")}) for v in []]
+
+def C07(tier, seed):
+    res = Result("C07", "model_checking")
+    out = rundir("C07")
+    _session(res, "C07", tier, seed, out, also=("C11",))
+    exe = vlib.build("asan")
+    for mode, n_q, n_t in (("addbase", 8000, 150000), ("normalize", 6000, 150000), ("removebase", 8000, 150000)):
+        h = vlib.run_harness(exe, ["algebra", "--mode", mode, "--n", str(n_t if tier == "thorough" else n_q), "--seed", str(seed + 7), "--tier", tier], out, mode)
+        res.violations += harness_crash_violations(h, "C07")
+        res.add_stats(vlib.merge_stats(h["stats"]))
+        res.violations += validate_stream(res, "Trace_Algebra", out, mode, "C07")
+    res.coverage["rule"] = ("(1) every behaviour of the session machine that TLC enumerates (all sequences of buffer creation, parse, make-owner, normalize with masks {0, PATH, ALL}, resolve, create-reference, free, scribble up to the depth bound over three families of texts chosen so that dot removal uncovers '//', a ':' first segment or an empty first segment) is replayed through the real library and its final state compared; "
+        "(2) random sessions of 20 (thorough 30) steps over 5 slots and 3 buffers with texts of every host kind, percent-encodings, dot segments; after every step every usable URI is projected, recomposed with uriToString and re-parsed with uriParseSingleUri, and TLC (Trace_Session) requires the re-read scheme, authority parts, path text, query and fragment to be those held, and the structure to be well formed; "
+        "(3) single-call universes of resolution, normalization and reference creation (Trace_Algebra, C07 clauses). non-trivial = every episode / case; distinct by script or (inputs, options)")
+    res.assumptions = SESSION_ASSUME
+    return res
+
+def C12(tier, seed):
+    res = Result("C12", "model_checking")
+    out = rundir("C12")
+    _session(res, "C12", tier, seed, out)
+    exe = vlib.build("asan")
+    for mode, n_q, n_t in (("addbase", 5000, 60000), ("equals", 8000, 100000), ("normalize", 5000, 100000), ("removebase", 5000, 60000)):
+        h = vlib.run_harness(exe, ["algebra", "--mode", mode, "--n", str(n_t if tier == "thorough" else n_q), "--seed", str(seed + 12), "--tier", tier], out, mode)
+        res.violations += harness_crash_violations(h, "C12")
+        res.add_stats(vlib.merge_stats(h["stats"]))
+        res.violations += validate_stream(res, "Trace_Algebra", out, mode, "C12")
+    res.coverage["rule"] = ("sessions as for C07; the C12 clauses: after uriMakeOwner / uriNormalizeSyntaxEx with a non-zero mask the source buffer is overwritten with 0xEE, overwritten with another URI text, or made inaccessible (released), and every URI the machine still considers usable is observed again: "
+        "components, owner flag and recomposed text must be what the machine holds (a forgotten component shows as changed text or as a fault); every buffer is mapped read-only during every library call (a write into caller text is a fault); "
+        "the projected operands of resolve / create-reference / equals / mask query are compared before and after the call, and byte snapshots of the structures in the single-call streams. non-trivial = every episode / case")
+    res.assumptions = SESSION_ASSUME
+    return res
+
 def _simple(pid, tier, seed, model, model_cfg_q, model_cfg_t, model_note, driver, trace, rule, assumptions, level="model_checking", extra_args=(), also=()):
     res = Result(pid, level)
     out = rundir(pid)
@@ -298,7 +368,7 @@ def C13(tier, seed):
         "freeing URI members twice more must release nothing; all 31 incomplete managers x the 9 manager-taking functions must be rejected with the dedicated code before anything is allocated. non-trivial = every case; distinct by (operation, inputs, mask, manager kind)",
         ["TLC/SANY, CommunityModules", "spec/UriLedger.tla", "recording manager and libc interposition of the harness"])
 
-CHECKS = {"C13": C13, "C14": C14, "C15": C15, "C16": C16, "C17": C17, "C18": C18, "C01": C01, "C02": C02, "C03": C03, "C04": C04, "C05": C05, "C06": C06, "C08": C08, "C09": C09, "C10": C10, "C11": C11}
+CHECKS = {"C13": C13, "C14": C14, "C15": C15, "C16": C16, "C17": C17, "C18": C18, "C01": C01, "C02": C02, "C03": C03, "C04": C04, "C05": C05, "C06": C06, "C08": C08, "C07": C07, "C09": C09, "C10": C10, "C11": C11, "C12": C12}
 
 # ------------------------------------------------------------------ known findings triage, replay
 def triage(pid, violations, kf):
